@@ -13,6 +13,8 @@ package state
 //@   property C17
 //@   ensures [C05] failed_play_leaves_no_speculative_memory: result != nil ==> memGen == old(memGen) || memClean == memGen
 //@   ensures [C01] a_block_that_was_not_applied_leaves_the_state_alone: result != nil ==> memGen == old(memGen) || memClean == memGen
+//@   ensures [C05] failed_play_leaves_nothing_staged_in_the_meta: result != nil && old(t.meta.MetaTmp.IrreversibleBlockHeight) == old(t.meta.Meta.IrreversibleBlockHeight) ==> t.meta.MetaTmp.IrreversibleBlockHeight == t.meta.Meta.IrreversibleBlockHeight
+//@   ensures [C17] a_block_that_was_not_applied_raises_no_height_later: result != nil && old(t.meta.MetaTmp.IrreversibleBlockHeight) == old(t.meta.Meta.IrreversibleBlockHeight) ==> t.meta.MetaTmp.IrreversibleBlockHeight == t.meta.Meta.IrreversibleBlockHeight
 //@   ensures [C02] a_block_that_was_not_applied_moves_no_balance: result != nil ==> memGen == old(memGen) || memClean == memGen
 //@   local block *xldgpb.InternalBlock
 //@   at Meta.UpdateNextIrreversibleBlockHeight assert irr_args_current: $0 == block.Height && $1 == t.meta.Meta.IrreversibleBlockHeight && $2 == t.meta.Meta.IrreversibleSlideWindow
@@ -29,6 +31,8 @@ package state
 //@   property C17
 //@   ensures [C05] failed_play_leaves_no_speculative_memory: result != nil ==> memGen == old(memGen) || memClean == memGen
 //@   ensures [C01] a_block_that_was_not_applied_leaves_the_state_alone: result != nil ==> memGen == old(memGen) || memClean == memGen
+//@   ensures [C05] failed_play_leaves_nothing_staged_in_the_meta: result != nil && old(t.meta.MetaTmp.IrreversibleBlockHeight) == old(t.meta.Meta.IrreversibleBlockHeight) ==> t.meta.MetaTmp.IrreversibleBlockHeight == t.meta.Meta.IrreversibleBlockHeight
+//@   ensures [C17] a_block_that_was_not_applied_raises_no_height_later: result != nil && old(t.meta.MetaTmp.IrreversibleBlockHeight) == old(t.meta.Meta.IrreversibleBlockHeight) ==> t.meta.MetaTmp.IrreversibleBlockHeight == t.meta.Meta.IrreversibleBlockHeight
 //@   ensures [C03] refused_block_revives_no_spent_output: result != nil ==> memGen == old(memGen) || memClean == memGen
 //@   local block *xldgpb.InternalBlock
 //@   at Meta.UpdateNextIrreversibleBlockHeight assert irr_args_current: $0 == block.Height && $1 == t.meta.Meta.IrreversibleBlockHeight && $2 == t.meta.Meta.IrreversibleSlideWindow
@@ -431,9 +435,14 @@ package state
 // Admitting a pool transaction: its effects and its pool record go into one batch,
 // written once; the in-memory pool mirror and the utxo cache are only touched after
 // that write succeeded; a write error clears the caches.
+// ... and the meta's staging copy restarts from the published meta: what a dropped batch had
+// staged there (an irreversible height, say) must not be published by a later operation
+// (C05; C17: the height is what applied blocks account for).
 //@ func State.ClearCache
-//@   noverify
+//@   property C05 C17
+//@   trustcallees
 //@   sets memClean = memGen
+//@   ensures staging_restarts_from_the_published_meta: t.meta == old(t.meta) && t.meta.Meta == old(t.meta.Meta) && t.meta.MetaTmp != nil && t.meta.MetaTmp.IrreversibleBlockHeight == t.meta.Meta.IrreversibleBlockHeight && t.meta.MetaTmp.IrreversibleSlideWindow == t.meta.Meta.IrreversibleSlideWindow && t.meta.MetaTmp.MaxBlockSize == t.meta.Meta.MaxBlockSize
 //@ func State.doTxSync
 //@   property C06
 //@   ensures [C05] refused_tx_leaves_no_speculative_memory: result != nil ==> memGen == old(memGen) || memClean == memGen
